@@ -68,7 +68,7 @@ def _worker(prop, vseed, indices, outfile, deadline, overrides):
     agg = {"runs": 0, "steps": 0, "ops": {}, "faults_fired": {}, "interrupt_sites": {}, "status": {}, "probes": {},
            "disk_probes": {}, "ref_forks": 0, "o1_compared": 0, "o3_groups": 0, "nontrivial": 0,
            "sched_sigs": set(), "share_sigs": set(), "skipped_deadline": 0, "harness_errors": [], "samples": [],
-           "fault_runs": 0, "faultfree_runs": 0, "store_states": set(), "discarded": {}}
+           "fault_runs": 0, "faultfree_runs": 0, "store_states": set(), "discarded": {}, "faults_placed": {}}
     seen_sigs = {}
     with open(outfile, "w") as out:
         for i in indices:
@@ -83,6 +83,11 @@ def _worker(prop, vseed, indices, outfile, deadline, overrides):
                 agg["harness_errors"].append({"i": i, "seed": seed, "error": f"{type(e).__name__}: {str(e)[:2000]}"})
                 continue
             st = res["stats"]
+            from . import engine as _engine
+            for _s in _engine.index_steps(plan).values():
+                if _s.get("fault"):
+                    _k = _s["fault"]["kind"]
+                    agg["faults_placed"][_k] = agg["faults_placed"].get(_k, 0) + 1
             agg["runs"] += 1
             agg["steps"] += st["steps"]
             for k in ("ops", "faults_fired", "interrupt_sites", "status"):
@@ -220,12 +225,12 @@ def merge_aggs(aggs):
     m = {"runs": 0, "steps": 0, "ops": {}, "faults_fired": {}, "interrupt_sites": {}, "status": {}, "probes": {},
          "disk_probes": {}, "ref_forks": 0, "o1_compared": 0, "o3_groups": 0, "nontrivial": 0, "sched_sigs": set(),
          "share_sigs": set(), "skipped_deadline": 0, "harness_errors": [], "samples": [], "fault_runs": 0,
-         "faultfree_runs": 0, "store_states": set(), "discarded": {}}
+         "faultfree_runs": 0, "store_states": set(), "discarded": {}, "faults_placed": {}}
     for a in aggs:
         for k in ("runs", "steps", "ref_forks", "o1_compared", "o3_groups", "nontrivial", "skipped_deadline", "fault_runs", "faultfree_runs"):
             m[k] += a[k]
-        for k in ("ops", "faults_fired", "interrupt_sites", "status", "disk_probes", "discarded"):
-            for kk, v in a[k].items():
+        for k in ("ops", "faults_fired", "interrupt_sites", "status", "disk_probes", "discarded", "faults_placed"):
+            for kk, v in a.get(k, {}).items():
                 m[k][kk] = m[k].get(kk, 0) + v
         for kk, v in a["probes"].items():
             m["probes"][kk] = max(m["probes"].get(kk, 0), v) if kk in ("max_nest_depth", "module_fingerprints") else m["probes"].get(kk, 0) + v
@@ -476,6 +481,7 @@ def write_evidence(prop, tier, vseed, agg, aggB, pair_checked, n_new, known_hits
             "step_status": agg["status"],
             "fault_injecting_runs": agg["fault_runs"], "fault_free_runs": agg["faultfree_runs"],
             "faults_fired": dict(sorted(agg["faults_fired"].items())),
+            "faults_placed": dict(sorted(agg["faults_placed"].items())),
             "interrupt_sites_distinct": len(agg["interrupt_sites"]),
             "interrupt_sites_top": dict(sorted(agg["interrupt_sites"].items(), key=lambda kv: -kv[1])[:15]),
             "schedule_signatures": len(agg["sched_sigs"]),
